@@ -397,6 +397,14 @@ def c04(cases, res):
                     want = (int(prev.snap["begin"]), int(prev.snap["end"]), "P", tuple(text_key(pcands[idx])))
                     if want not in sels:
                         out.append(fail("choice-not-recorded", case, i, "chose %s; recorded choices %s" % (want, sels)))
+                    # a choice joins the symbols INSIDE its range; breaks / glue at its start and elsewhere stay
+                    pgaps = lst(prev.snap.get("gaps", ""))
+                    if len(pgaps) == len(gaps):
+                        for k in range(len(gaps)):
+                            if not (want[0] < k < want[1]) and pgaps[k] != gaps[k]:
+                                out.append(fail("choice-changed-a-gap-outside-its-range", case, i,
+                                                "chose %s; gap %d was %s, is %s" % (want, k, pgaps[k], gaps[k])))
+                                break
             if prev is None or not is_key(s) or state_of(prev) not in ("Entering", "EnteringSyllable") \
                     or state_of(s) not in ("Entering", "EnteringSyllable"):
                 continue
